@@ -25,14 +25,15 @@ import time
 VERIF = os.path.dirname(os.path.dirname(os.path.abspath(__file__)))
 HARNESS = os.path.join(VERIF, "harness")
 TARGET = os.path.join(VERIF, ".kani-target")
-LOGS = os.path.join(VERIF, "logs")
+LOGS = os.environ.get("VERIF_LOGS", os.path.join(VERIF, "logs"))
 EVIDENCE = os.path.join(VERIF, "evidence")
-REPLAYS = os.path.join(VERIF, "replays")
+REPLAYS = os.environ.get("VERIF_REPLAYS", os.path.join(VERIF, "replays"))
 KNOWN = os.path.join(VERIF, "known_findings.txt")
-REPO = "/repo"
+REPO = os.environ.get("VERIF_REPO", "/repo")  # a scratch worktree may be checked instead (seeded-change trials)
 
 MEM_BUDGET_GB = int(os.environ.get("VERIF_MEM_GB", "54"))
-MAX_JOBS = int(os.environ.get("VERIF_JOBS", "8"))
+MAX_JOBS = int(os.environ.get("VERIF_JOBS", "10"))
+SLOT_PREFIX = os.environ.get("VERIF_SLOT_PREFIX", "s")  # separate target dirs for side-by-side runs
 
 # ----------------------------------------------------------------------------
 # harness discovery: every #[kani::proof] in harness/src/*.rs is preceded by a block
@@ -130,6 +131,36 @@ def sh(cmd, **kw):
     return subprocess.run(cmd, shell=isinstance(cmd, str), **kw)
 
 
+CRATE = HARNESS  # directory the jobs compile from (a per-property snapshot of harness/)
+
+
+def snapshot(tag):
+    """Copy harness/ to logs/crate/<tag>/ so that a running check is not disturbed by later
+    edits of /verif/harness (and two checks can run side by side)."""
+    global CRATE
+    d = os.path.join(LOGS, "crate", tag + ("" if REPO == "/repo" else "-" + os.path.basename(REPO.rstrip("/"))))
+    os.makedirs(os.path.join(d, "src"), exist_ok=True)
+    for name in ("Cargo.toml", "Cargo.lock"):
+        shutil.copyfile(os.path.join(HARNESS, name), os.path.join(d, name))
+    if REPO != "/repo":
+        t = open(os.path.join(d, "Cargo.toml")).read().replace('path = "/repo"', 'path = "%s"' % REPO)
+        with open(os.path.join(d, "Cargo.toml"), "w") as o:
+            o.write(t)
+    keep = set()
+    for f in glob.glob(os.path.join(HARNESS, "src", "*.rs")):
+        dst = os.path.join(d, "src", os.path.basename(f))
+        keep.add(dst)
+        new = open(f).read()
+        if not os.path.exists(dst) or open(dst).read() != new:
+            with open(dst, "w") as o:
+                o.write(new)
+    for f in glob.glob(os.path.join(d, "src", "*.rs")):
+        if f not in keep:
+            os.remove(f)
+    os.utime(os.path.join(d, "src", "lib.rs"), None)
+    CRATE = d
+
+
 def prepare():
     os.makedirs(LOGS, exist_ok=True)
     os.makedirs(TARGET, exist_ok=True)
@@ -166,9 +197,16 @@ def kani_cmd(h, slot, json_out, playback=False):
     args = ["cargo", "kani", "--target-dir", os.path.join(TARGET, slot),
             "--harness", h["qual"], "--exact", "-Z", "stubbing", "-Z", "unstable-options"]
     if playback:
-        args += ["-Z", "concrete-playback", "--concrete-playback=print"]
+        # regular output (needed by concrete playback); without the per-assertion reachability
+        # instrumentation, whose "failures" would each make CBMC emit a full JSON trace
+        args += ["-Z", "concrete-playback", "--concrete-playback=print", "--no-assertion-reach-checks"]
     else:
-        args += ["--export-json", json_out]
+        # CBMC's plain output, parsed below: the JSON UI that Kani's regular mode uses emits a
+        # trace per reachable assertion (1 GB, 5x the run time for a 2000-property harness)
+        # no per-assertion reachability instrumentation either: every reachable assertion would be
+        # one more "failing" property and one more SAT iteration; vacuity is guarded by the
+        # explicit kani::cover! witnesses of each harness instead
+        args += ["--output-format", "old", "--no-assertion-reach-checks"]
     if h["cbmc"]:
         args += ["--cbmc-args"] + h["cbmc"]
     return args
@@ -197,17 +235,16 @@ class Job:
 def run_job(job, slot):
     h = job.h
     os.makedirs(os.path.dirname(job.log), exist_ok=True)
-    for p in (job.log, job.json):
-        if os.path.exists(p):
-            os.remove(p)
+    if os.path.exists(job.log):
+        os.remove(job.log)
     cmd = kani_cmd(h, slot, job.json)
-    shell = "ulimit -s unlimited 2>/dev/null; ulimit -v %d; exec timeout -k 15 %d %s" % (
+    shell = "ulimit -s unlimited 2>/dev/null; ulimit -v %d; exec /usr/bin/time -f MAXRSS_KB=%%M timeout -k 15 %d %s" % (
         h["mem"] * 1024 * 1024, h["timeout"], " ".join(map(shquote, cmd)))
     t0 = time.time()
     with open(job.log, "w") as lf:
         lf.write("# %s\n" % shell)
         lf.flush()
-        r = subprocess.run(["bash", "-c", shell], cwd=HARNESS, env=env(), stdout=lf, stderr=subprocess.STDOUT)
+        r = subprocess.run(["bash", "-c", shell], cwd=CRATE, env=env(), stdout=lf, stderr=subprocess.STDOUT)
     job.wall = time.time() - t0
     job.rc = r.returncode
     classify(job)
@@ -219,51 +256,108 @@ def shquote(s):
     return "'" + s.replace("'", "'\\''") + "'"
 
 
+PROP_RE = re.compile(r"^\[(.+)\.([a-z_A-Z-]+)\.(\d+)\] line (\d+) (.*)$")
+HEAD_RE = re.compile(r"^(\S+) function (.+)$")
+STATUS_RE = re.compile(r"^(.*): (SUCCESS|FAILURE|UNKNOWN|ERROR)$", re.S)
+ID_RE = re.compile(r"^\[?KANI_CHECK_ID_[^\s\]]+\]?\s*")
+
+
+def parse_plain(log):
+    """CBMC plain-text '** Results:' section -> list of checks."""
+    checks = []
+    i = log.find("** Results:")
+    if i < 0:
+        return checks
+    cur_file = ""
+    pend = None
+    for line in log[i:].splitlines()[1:]:
+        if line.startswith("** ") and "failed" in line:
+            break
+        if pend is not None:
+            pend["raw"] += "\n" + line
+            m = STATUS_RE.match(pend["raw"])
+            if m:
+                pend["description"], pend["status"] = m.group(1), m.group(2)
+                checks.append(pend)
+                pend = None
+            continue
+        m = PROP_RE.match(line)
+        if m:
+            c = {"function": m.group(1), "category": m.group(2), "n": int(m.group(3)),
+                 "location": {"file": cur_file, "line": m.group(4)}, "raw": m.group(5)}
+            ms = STATUS_RE.match(c["raw"])
+            if ms:
+                c["description"], c["status"] = ms.group(1), ms.group(2)
+                checks.append(c)
+            else:
+                pend = c
+            continue
+        m = HEAD_RE.match(line)
+        if m:
+            cur_file = m.group(1)
+    for c in checks:
+        c["description"] = ID_RE.sub("", c["description"]).strip()
+        c.pop("raw", None)
+    return checks
+
+
 def classify(job):
     log = open(job.log, errors="replace").read()
-    job.stubs_seen = re.findall(r"^\s*- Stub: (.*)$", log, re.M)
+    job.stubs_seen = sorted(set(re.findall(r"[Ss]tub\w*[: ]+`?([\w:<>]+)`?", log)))[:8]
+    m = re.search(r"MAXRSS_KB=(\d+)", log)
+    job.maxrss_gb = round(int(m.group(1)) / 1048576.0, 2) if m else None
     if job.rc in (124, 137):
         job.status = "timeout"
         return
-    data = None
-    if os.path.exists(job.json):
-        try:
-            data = json.load(open(job.json))
-        except Exception:
-            data = None
     oom = re.search(r"out of memory|std::bad_alloc|Cannot allocate memory|memory allocation of \d+ bytes failed", log, re.I)
-    if data is None or not data.get("verification_results", {}).get("results"):
-        job.status = "oom" if oom else "error"
-        return
-    res = data["verification_results"]["results"][0]
-    job.checks = res.get("checks", [])
-    for c in data.get("cbmc", []):
-        job.stats = c.get("cbmc_stats", {})
-    for pd in data.get("property_details", []):
-        job.stats["properties"] = pd.get("property_details", {})
-    if not job.checks:
+    st = {}
+    for k, pat in (("runtime_symex_s", r"Runtime Symex: ([\d.e+-]+)s"),
+                   ("size_program_expression", r"size of program expression: (\d+) steps"),
+                   ("runtime_convert_ssa_s", r"Runtime Convert SSA: ([\d.e+-]+)s")):
+        mm = re.search(pat, log)
+        if mm:
+            st[k] = float(mm.group(1)) if "." in mm.group(1) or "e" in mm.group(1) else int(mm.group(1))
+    mm = re.search(r"Generated (\d+) VCC\(s\), (\d+) remaining", log)
+    if mm:
+        st["vccs_generated"], st["vccs_remaining"] = int(mm.group(1)), int(mm.group(2))
+    vc = re.findall(r"(\d+) variables, (\d+) clauses", log)
+    if vc:
+        st["sat_variables"], st["sat_clauses"] = int(vc[-1][0]), int(vc[-1][1])
+    st["runtime_decision_procedure_s"] = round(sum(float(x) for x in re.findall(r"Runtime decision procedure: ([\d.e+-]+)s", log)), 3)
+    st["solver_iterations"] = len(re.findall(r"Runtime decision procedure:", log))
+    job.stats = st
+    job.checks = parse_plain(log)
+    done = re.search(r"^VERIFICATION (SUCCESSFUL|FAILED)", log, re.M)
+    if not job.checks or not done:
         job.status = "oom" if oom else "error"
         return
     fails, covers_bad, unwind, undet = [], [], [], []
+    reach = 0
     for c in job.checks:
-        st, cat = c.get("status", ""), c.get("category", "")
+        st_, cat = c["status"], c["category"]
+        if cat == "reachability_check":
+            reach += 1
+            continue
         if cat == "cover":
-            if st != "Satisfied":
+            # a cover is encoded as assert(!cond): FAILURE means the witness is satisfiable
+            if st_ != "FAILURE":
                 covers_bad.append(c)
-        elif st == "Failure":
-            if cat == "unwind":
+        elif st_ == "FAILURE":
+            if cat == "unwind" or "unwinding assertion" in c["description"]:
                 unwind.append(c)
             else:
                 fails.append(c)
-        elif st in ("Undetermined", "Unknown", "Error"):
+        elif st_ != "SUCCESS":
             undet.append(c)
+    job.checks = [c for c in job.checks if c["category"] != "reachability_check"]
+    job.reach_checks = reach
     job.fail_checks = fails
     job.cover_bad = covers_bad
     if unwind:
         job.status = "unwind"
     elif fails:
         job.status = "fail"
-    elif undet or res.get("status") != "Success":
+    elif undet:
         job.status = "oom" if oom else "error"
     elif covers_bad:
         job.status = "vacuous"
@@ -280,7 +374,7 @@ def run_all(jobs, seed):
     order = sorted(range(len(jobs)), key=lambda i: (-jobs[i].h["mem"], -jobs[i].h["timeout"], (i * 7919 + seed) % 104729))
     pending = [jobs[i] for i in order]
     running = {}
-    free_slots = ["s%d" % i for i in range(MAX_JOBS)]
+    free_slots = ["%s%d" % (SLOT_PREFIX, i) for i in range(MAX_JOBS)]
     lock = threading.Lock()
     done_evt = threading.Event()
 
@@ -317,7 +411,7 @@ def run_all(jobs, seed):
 def summarize(job):
     s = job.stats
     n = len(job.checks)
-    return "checks=%d symex=%.0fs solver=%.0fs" % (n, s.get("runtime_symex_s", 0) or 0, s.get("runtime_decision_procedure_s", 0) or 0)
+    return "checks=%d symex=%.0fs solver=%.0fs rss=%sG" % (n, s.get("runtime_symex_s", 0) or 0, s.get("runtime_decision_procedure_s", 0) or 0, getattr(job, "maxrss_gb", "?"))
 
 
 # ----------------------------------------------------------------------------
@@ -351,7 +445,7 @@ def replay_scratch():
     d = os.path.join(LOGS, "replay_crate")
     if os.path.exists(d):
         shutil.rmtree(d)
-    shutil.copytree(HARNESS, d, ignore=shutil.ignore_patterns("target"))
+    shutil.copytree(CRATE, d, ignore=shutil.ignore_patterns("target"))
     return d
 
 
@@ -375,7 +469,7 @@ def run_native_test(crate_dir, modname, test_src, log_path):
     for prof in ("dev", "release"):
         cmd = ["cargo", "kani", "playback", "-Z", "concrete-playback", "--", tname]
         e = env()
-        e["CARGO_TARGET_DIR"] = os.path.join(TARGET, "playback-" + prof)
+        e["CARGO_TARGET_DIR"] = os.path.join(TARGET, "playback-" + prof + ("" if SLOT_PREFIX == "s" else "-" + SLOT_PREFIX))
         e["RUST_BACKTRACE"] = "0"
         if prof == "release":
             # `cargo kani playback` has no --release: give the test profile release settings
@@ -410,7 +504,7 @@ def replay_job(job):
         # oracle lives in a stub: the hand-written native twin is the replay target
         crate = replay_scratch()
         e = env()
-        e["CARGO_TARGET_DIR"] = os.path.join(TARGET, "playback-dev")
+        e["CARGO_TARGET_DIR"] = os.path.join(TARGET, "playback-dev" + ("" if SLOT_PREFIX == "s" else "-" + SLOT_PREFIX))
         with open(rlog, "w") as lf:
             r = subprocess.run(["cargo", "kani", "playback", "-Z", "concrete-playback", "--", h["twin"]],
                                cwd=crate, env=e, stdout=lf, stderr=subprocess.STDOUT)
@@ -420,7 +514,7 @@ def replay_job(job):
         shutil.rmtree(crate, ignore_errors=True)
         return path, bool(re.search(r"test result: FAILED|panicked at", txt))
     crate = replay_scratch()
-    cmd = kani_cmd(h, "s0", None, playback=True)
+    cmd = kani_cmd(h, SLOT_PREFIX + "0", None, playback=True)
     shell = "ulimit -s unlimited 2>/dev/null; ulimit -v %d; exec timeout -k 15 %d %s" % (
         h["mem"] * 1024 * 1024, h["timeout"], " ".join(map(shquote, cmd)))
     with open(rlog, "w") as lf:
@@ -451,6 +545,7 @@ def replay_file(path):
         print("not a replay file produced by this driver: %s" % path)
         return 2
     prepare()
+    snapshot("replay")
     crate = replay_scratch()
     test = txt[txt.find("#[test]"):]
     rlog = os.path.join(LOGS, "replay_cmd.log")
@@ -480,7 +575,7 @@ def write_evidence(prop, tier, seed, jobs, wall, violations, known_hits, extra_a
     for j in jobs:
         h = j.h
         st = j.stats
-        covers = [c.get("description") for c in j.checks if c.get("category") == "cover" and c.get("status") == "Satisfied"]
+        covers = [c.get("description") for c in j.checks if c.get("category") == "cover" and c.get("status") == "FAILURE"]
         samples.append({
             "harness": h["qual"],
             "verdict": j.status,
@@ -498,9 +593,13 @@ def write_evidence(prop, tier, seed, jobs, wall, violations, known_hits, extra_a
             "vccs_generated": st.get("vccs_generated"),
             "vccs_remaining": st.get("vccs_remaining"),
             "program_steps": st.get("size_program_expression"),
+            "sat_variables": st.get("sat_variables"),
+            "sat_clauses": st.get("sat_clauses"),
+            "solver_iterations": st.get("solver_iterations"),
             "symex_s": st.get("runtime_symex_s"),
             "solver_s": st.get("runtime_decision_procedure_s"),
             "wall_s": round(j.wall, 1),
+            "peak_rss_gb": getattr(j, "maxrss_gb", None),
             "mem_cap_gb": h["mem"],
         })
         for a in h["assume"]:
@@ -550,10 +649,11 @@ def setup():
     """Warm one target directory and clone it to the other slots."""
     prepare()
     hs = discover()
+    snapshot("setup")
     first = next((h for h in hs if h["name"] == "c20_gte_lex"), hs[0])
     s0 = os.path.join(TARGET, "s0")
     t0 = time.time()
-    r = sh(kani_cmd(first, "s0", os.path.join(LOGS, "setup.json")), cwd=HARNESS, env=env(),
+    r = sh(kani_cmd(first, "s0", os.path.join(LOGS, "setup.json")), cwd=CRATE, env=env(),
            stdout=subprocess.PIPE, stderr=subprocess.STDOUT, text=True)
     print(r.stdout[-1500:])
     if r.returncode != 0:
@@ -590,6 +690,7 @@ def main():
             print("%-46s %s mem=%d timeout=%d" % (h["qual"], h["props"], h["mem"], h["timeout"]))
         return 0
     sel = select(hs, a.prop, tier)
+    snapshot(a.prop)
     if a.only:
         sel = [h for h in sel if a.only in h["name"]]
     if not sel:
